@@ -103,7 +103,7 @@ def plainOf (g : GroupD) : GroupD := { name := g.name, uuid := g.uuid }
 /-- what a valid trigger loads to -/
 def trigImg (t : TriggerD) : TriggerC :=
   { type := t.type, keywords := normKeywords t, channel := t.channel,
-    matchType := if falsy (t.matchType.getD jNull) then (if t.type = strK then jMatchF else jNull) else t.matchType.getD jNull,
+    matchType := loadMatchType t.type t.matchType,
     flow := t.flow, groups := t.groups, excludeGroups := t.excludeGroups.getD [] }
 
 def shapeDoc (d : DocD) : DocD :=
